@@ -150,15 +150,16 @@ def explore(prog, fn_name, extra_models=(), extra_step=()):
                       extra_models)
 
 
-def explore_fn(prog, fn_path, self_label="self", step_only=(), extra_models=(), self_value=None):
+def explore_fn(prog, fn_path, self_label="self", step_only=(), extra_models=(), self_value=None, memo_shared=False):
     """-> (paths, info): explore any function; a `self` reference argument points to a symbolic object
     of its type named `self_label`; other reference arguments point to symbolic cells named after the
     parameter; value arguments are symbolic values named after the parameter."""
-    ck = (id(prog), fn_path, self_label, tuple(step_only))
+    ck = (id(prog), fn_path, self_label, tuple(step_only), memo_shared)
     if ck in _cache and not extra_models and self_value is None:
         return _cache[ck]
     body = prog.body(fn_path)
     it = Interp(prog, compile_models(list(extra_models)), step_only=list(step_only))
+    it.memo_shared = memo_shared
     st = State()
     args = []
     first = 1
